@@ -113,6 +113,7 @@ type pfStep struct {
 	// callback steps: which sealed values to present
 	StateKind string  `json:"stateKind,omitempty"` // own | other | same | garbage | session | absent | stale-own
 	CsrfKind  string  `json:"csrfKind,omitempty"`  // own | other | garbage | session | absent
+	CsrfExtra string  `json:"csrfExtra,omitempty"` // a second CSRF cookie after the first: state-copy | other | own
 	Code      string  `json:"code,omitempty"`
 	ErrParam  string  `json:"errParam,omitempty"`
 	Upstream  pfReply `json:"upstreamResp"` // what the backend answers: headers to set are in Groups as "K: V"
@@ -588,6 +589,18 @@ func (w *pfWorld) step(st *pfStep) M {
 		}
 		if csOK {
 			cookies = append(cookies, w.cookieName+"_csrf="+csVal)
+		}
+		// a second cookie of the same name (a stale host-only one next to a domain-wide one, or one an attacker's sibling host
+		// planted): net/http's Cookie() hands the handler the first
+		switch st.CsrfExtra {
+		case "state-copy":
+			if stOK {
+				cookies = append(cookies, w.cookieName+"_csrf="+stVal)
+			}
+		case "other", "own":
+			if v, ok, _ := pick(st.CsrfExtra, w.csrfs[jk], false); ok {
+				cookies = append(cookies, w.cookieName+"_csrf="+v)
+			}
 		}
 		if st.Code != "" {
 			form.Set("code", st.Code)
